@@ -570,7 +570,7 @@ class Runner:
             if len(self.findings) > n0:
                 err = getattr(self, "last_err", 1.0)
                 if err > 0.15:
-                    self.findings[-1].prop = prop
+                    self.findings[-1].prop = "C10" if self.prog.get("focus") == "C10" else prop
                 elif gate == "Squeeze":
                     del self.findings[n0:]
                     self.known("C10", f"Squeeze: the automatically chosen cutoff loses more than the documented threshold (error {err:.1e})", i)
@@ -781,7 +781,7 @@ class Runner:
         self.partition_check(i, st, before, len(targets) > 1)
 
     def call_kraus(self, st, targets, ops):
-        ops = [jnp.array(K) for K in ops]
+        ops = [np.array(K) for K in ops] if st.get("np_ops") else [jnp.array(K) for K in ops]
         en = st.get("entry", "ce")
         if en == "state":
             targets[0].apply_kraus(ops)
@@ -826,6 +826,8 @@ class Runner:
             self.findings.append(Finding(prop, f"{what} on {st.get('targets', st.get('env', st.get('args')))} raised {type(err).__name__}: {str(err)[:160]}", i))
             return
         n0 = len(self.findings)
+        if st.get("nocheck"):
+            return  # a preparation step of a directed program whose effect is judged at the next step
         self.compare_states(prop, i)
         self.check_invariants(i)
         if what == "expand" and targets and len(self.findings) == n0:
@@ -1219,6 +1221,13 @@ class Runner:
             return
         self.lean.call(op="apply", targets=st["targets"], U=carr(ops2[outcome]), renorm=True)
         others = {w.sid(k): int(v) for k, v in out[1].items()}
+        own_target = any(b["kind"] == "own" and st["targets"][0] in b["members"] for b in before)
+        if st.get("partial") and en == "state" and others and own_target:
+            # `partial=True` restricts the POVM to the addressed member: nothing else may be measured
+            hit = [b["members"] for b in before if any(x in b["members"] for x in others) and not any(x in b["members"] for x in st["targets"])]
+            for pr in ("C09", "C20"):
+                self.findings.append(Finding(pr, f"measure_POVM(partial=True, destructive={des}) on subsystem {st['targets']} also measured {sorted(others)}" + (f"; bystander block(s) {hit} changed" if hit else ""), i))
+            return
         if des:
             # destructive: the addressed subsystems are measured away (their own outcomes are not
             # reported), partners reported in the second component
@@ -1298,7 +1307,8 @@ class Runner:
         return False
 
     def call_povm(self, st, targets, ops, des):
-        ops = [jnp.array(M) for M in ops]
+        # operators may be handed over as numpy arrays (the API accepts both)
+        ops = [np.array(M) for M in ops] if st.get("np_ops") else [jnp.array(M) for M in ops]
         en = st.get("entry", "ce")
         if en == "state":
             return targets[0].measure_POVM(ops, destructive=des, **({"partial": True} if st.get("partial") else {}))
